@@ -16,7 +16,7 @@ go build ./... >/dev/null 2>&1 || { echo "does not build"; exit 2; }
 bad=0
 for p in "$@"; do
   cp "$ROOT/evidence/$p.json" "$W/evidence.$p.json" 2>/dev/null
-  out=$(cd "$ROOT" && VERIF_REPO="$W/repo" ./verif.sh check "$p" --tier quick --seconds "${SECS:-12}" 2>&1); code=$?
+  out=$(cd "$ROOT" && VERIF_REPLAY_DIR="$W/replays" VERIF_REPO="$W/repo" ./verif.sh check "$p" --tier quick --seconds "${SECS:-12}" 2>&1); code=$?
   cp "$W/evidence.$p.json" "$ROOT/evidence/$p.json" 2>/dev/null
   if [ $code -eq 0 ]; then echo "quiet  $p"; else bad=1; echo "ALARM  $p exit=$code"; echo "$out" | grep -vE "^WARNING|^KNOWN-FINDING" | grep -E "VIOLATION|signature:|^  |verif.sh:|rewrite:|\.go:" | head -8 | cut -c1-300; fi
 done
